@@ -176,10 +176,13 @@ def cfdp_conf(rng, i) -> PduConfig:
     """all 16 (entity width x sequence-number width) pairs, both file-size flags, both modes"""
     we, ws = WIDTHS[i % 4], WIDTHS[(i // 4) % 4]
     val = lambda w: rng.choice([0, 1, (1 << (8 * w)) - 1, rng.getrandbits(8 * w)])  # noqa: E731
+    # TYPE-COERCION dimension: "built with the CRC flag" is a statement about the VALUE of the flag; one configuration in seven
+    # carries its five flags as plain ints, one in seven as bools (PduConfig is an unvalidated dataclass)
+    f = (lambda cls, v: int(v)) if i % 7 == 3 else (lambda cls, v: bool(v)) if i % 7 == 5 else (lambda cls, v: cls(v))
     return PduConfig(source_entity_id=_BF[we](val(we)), dest_entity_id=_BF[we](val(we)),
-                     transaction_seq_num=_BF[ws](val(ws)), trans_mode=cd.TransmissionMode((i // 2) % 2),
-                     file_flag=cd.LargeFileFlag((i // 3) % 2), crc_flag=cd.CrcFlag.WITH_CRC,
-                     direction=cd.Direction(i % 2), seg_ctrl=cd.SegmentationControl((i // 5) % 2))
+                     transaction_seq_num=_BF[ws](val(ws)), trans_mode=f(cd.TransmissionMode, (i // 2) % 2),
+                     file_flag=f(cd.LargeFileFlag, (i // 3) % 2), crc_flag=f(cd.CrcFlag, 1),
+                     direction=f(cd.Direction, i % 2), seg_ctrl=f(cd.SegmentationControl, (i // 5) % 2))
 
 
 def _fsize(rng, conf):
